@@ -236,7 +236,7 @@ def run_case(c) -> Result:
                     ended = [e for e in ev if e["ev"] == "run-end" and e["name"] == s["name"] and e["t"] < d.t_signal]
                     if ended:
                         res.fail("service-stopped-early", f"service {s['name']} ({s['cls']}) ended {d.t_signal - ended[0]['t']:.2f}s before the signal ({desc})")
-                elif not beats or beats[-1]["t"] < d.t_signal - 0.5:
+                elif not beats or beats[-1]["t"] < d.t_signal - 1.5:
                     res.fail("service-stopped-early", f"service {s['name']} last beat {d.t_signal - (beats[-1]['t'] if beats else 0):.2f}s before the signal ({desc})")
                 if SERVICES[s["cls"]] != "threading" and not any(e["ev"] == "cancelled" and e["name"] == s["name"] for e in ev):
                     res.fail("service-not-cancelled", f"{SERVICES[s['cls']]} service {s['name']} was not cancelled on SIGINT ({desc})")
